@@ -277,6 +277,29 @@ def replay_schema_events(v):
         why = "schema load: resource object not closed"
     elif real != want:
         why = "schema load: open/close sequence"
+    if why is None and res != "ok":
+        # a failed load leaves nothing behind: the SchemaLoader object that has just failed, asked again without
+        # the fault, answers what a new loader answers
+        import ZConfig.loader
+        from .. import project
+
+        def ask(ld):
+            try:
+                return "ok", project.digest_schema(ld.loadURL(os.path.join(root, rid)))
+            except ZConfig.ConfigurationError:
+                return "refused", None
+            except Exception as e:
+                return "raised " + type(e).__name__, None
+        used = ZConfig.loader.SchemaLoader()
+        with obs.Observer(fault=flt):
+            try:
+                used.loadURL(os.path.join(root, rid))
+            except Exception:
+                pass
+        a, b = ask(used), ask(ZConfig.loader.SchemaLoader())
+        if a != b:
+            why = "schema load: failed-load-left-something-behind"
+            res = "then %s, a new loader: %s" % (a[0], b[0])
     if why is None:
         return None
     return {"clause": why, "input": {"label": c10._W["labels"][i], "main": rid, "fault": m["fault"]},
